@@ -103,7 +103,10 @@ def run(ck):
                       ('R1.5', 'rvalue templates take their operands in source order'),
                       ('R1.6', 'short-circuit && / || lowering is a mirror pair joining at one label'),
                       ('R1.7', 'completion values are patched only through empty blocks'),
-                      ('R1.8', 'folding is attempted only on all-constant operands with the matching evaluator')):
+                      ('R1.8', 'folding is attempted only on all-constant operands with the matching evaluator'),
+                      ('R1.9', 'branches, joins and sinks of the lowering follow the reviewed protocol (shared with C06)'),
+                      ('R1.10', 'a declared name is in scope for the declarators and statements that follow it'),
+                      ('R1.11', 'the default clause is placed where the source puts it')):
         ck.rule(rid, text)
 
     disp = display_tables(L)
@@ -450,3 +453,67 @@ def run(ck):
                             ok = False
                             detail += '; operands passed out of order to %s' % short(H.callee(c))
         ck.ob('R1.8', 'dispatch|%s' % name, ok, L.loc(outer) if outer else '', detail)
+
+    # ---- R1.9 lowering protocol: shared with C06 ---------------------------------------------------------------------------
+    import core as _core2
+    import rules.c06 as c06
+    sh = _core2.Shared(ck, 'R1.9', lambda r, k: r in ('R6.1', 'R6.2', 'R6.5'), 'C06:', ' [a mis-wired edge or an unassigned sink makes the body compute another value on that path]')
+    c06.run(sh)
+    ck.floor('R1.9', sh.count, 80, 'shared C06 R6.1/R6.2/R6.5 obligations')
+
+    # ---- R1.10 scoping of let/const ------------------------------------------------------------------------------------------
+    ws = L.fn('typedexpr::walk_stmt')
+    if ws is None:
+        ck.floor('R1.10', 0, 1, 'fn walk_stmt')
+    else:
+        arm = next((a for n in walk(ws['body']) if n.get('k') == 'Match' for a in n['arms'] if 'Statement::LexicalDeclaration' in pp(a['pat'])), None)
+        lp = next((n for n in walk(arm['body']) if n.get('k') == 'For' and 'variables' in pp(n['iter'])), None) if arm else None
+        bs = H.binding_sites(ws)
+        scope = next((b for b in bs.values() if b['kind'] == 'param' and 'HashMap<std::string::String' in ws['inputs'][b['index']]), None)
+        ins = [c for c in H.calls_in(arm['body']) if c.get('m') in ('insert', 'extend', 'entry') and scope is not None and (H.root_local(c['recv']) or {}).get('hid') == scope['bind']['hid']] if arm else []
+        inside = [c for c in ins if lp is not None and any(x is c for x in walk(lp['body']))]
+        ok = lp is not None and len(ins) == 1 and len(inside) == 1 and not [a for a in H.ancestors(ws, inside[0]) if a.get('k') in ('If', 'Match') and any(x is a for x in walk(lp['body']))]
+        ck.ob('R1.10', 'name-enters-scope-per-declarator', ok, L.loc(ins[0]) if ins else (L.loc(arm) if arm else ''),
+              'locals.insert(name, ..) inside the loop over the declarators: `let a = 1, b = a` and every later statement see `a`' if ok else
+              'the declared names enter the scope %s: a later declarator of the same statement that mentions an earlier name resolves it to an outer entity of that name (or fails)' %
+              ('only after the whole declarator list' if ins and not inside else 'at %d places' % len(ins)), fn=ws['path'])
+        if ok:
+            rv = [c for c in H.calls_in(lp['body']) if H.is_call_to(c, 'typedexpr::walk_rvalue')]
+            ck.ob('R1.10', 'initializer-sees-the-outer-scope', bool(rv) and all(H.source_before(c, inside[0]) for c in rv), L.loc(inside[0]), 'the initializer is walked before its own name is inserted')
+
+    # ---- R1.11 default clause position ------------------------------------------------------------------------------------------------
+    sw = next((f for f in L.fn_list if f['path'].endswith('qmlast::stmt::SwitchStatement::with_cursor')), None)
+    if sw is None:
+        ck.floor('R1.11', 0, 1, 'fn SwitchStatement::with_cursor')
+    else:
+        ck.analysed(sw['path'])
+        lp = next((n for n in walk(sw['body']) if n.get('k') == 'For'), None)
+        st = next((n for n in walk(sw['body']) if n.get('k') == 'Struct' and (n.get('def') or '').endswith('SwitchDefault')), None)
+        pos = next((f['e'] for f in (st or {}).get('fields', []) if f['f'] == 'position'), None)
+        ok = False
+        why = 'position of the default clause not found'
+        if lp is not None and pos is not None:
+            pr = H.root_local(pos)
+            pb = H.binding_sites(sw).get((pr or {}).get('hid'))
+            m = next((n for n in walk(lp['body']) if n.get('k') == 'Match'), None)
+            by_len = H.strip_refs(pos).get('k') == 'MCall' and H.strip_refs(pos).get('m') == 'len'
+            if by_len:
+                ok = True
+                why = 'position = number of case clauses collected so far'
+            elif pb is not None and pb['kind'] == 'for' and 'enumerate' in pp(lp['iter']) and m is not None:
+                # the raw child index is the clause index only if every child is a clause: all other arms must leave the function
+                others = []
+                for a in m['arms']:
+                    pushes = any(c.get('m') == 'push' for c in H.calls_in(a['body']))
+                    sets_default = any(x is st for x in walk(a['body']))
+                    leaves = any(x.get('k') == 'Ret' for x in walk(a['body'])) and not list(H.value_exprs(a['body']))
+                    if not (pushes or sets_default or leaves):
+                        others.append(pp(a['pat'], maxlen=30))
+                ok = not others
+                why = ('position = enumerate() index; every child is a case, the default, or an error, so the index counts clauses' if ok else
+                       'position = raw child index, but children matching %s are skipped without being clauses: each of them before `default:` shifts the default body one place down the fall-through chain' % others)
+        ck.ob('R1.11', 'default-position-counts-clauses', ok, L.loc(pos) if pos else L.loc(sw['body']), why, fn=sw['path'])
+        # the walker inserts the default body at that position among the case bodies
+        if ws is not None:
+            ib = next((c for c in H.calls_in(ws['body']) if c.get('m') == 'insert' and c['args'] and 'position' in pp(c['args'][0]) and 'body' in pp(c['args'][1])), None)
+            ck.ob('R1.11', 'default-body-inserted-at-position', ib is not None, L.loc(ib) if ib else L.loc(ws['body']), 'body_statements.insert(d.position, &d.body)')
